@@ -24,6 +24,7 @@ import (
 
 	"verif/engine/cli"
 	"verif/engine/hist"
+	"verif/engine/sched"
 	"verif/vrt"
 )
 
@@ -533,14 +534,14 @@ func liveIDs(items []*pqItem) []int {
 
 func queueSys(capacity int) sysDef {
 	names := []string{"Offer", "ForceOffer", "Poll"}
-	return sysDef{name: fmt.Sprintf("queue/cap%d", capacity), names: names, depth: 3*capacity + 4, merge: true, mk: func() *simple {
+	// not merged: the ring cursors are not observable through the API, so no model key can stand for the real state
+	return sysDef{name: fmt.Sprintf("queue/cap%d", capacity), names: names, depth: 3*capacity + 3, merge: false, mk: func() *simple {
 		real := queue.New[int](capacity)
 		var model []int
 		next := 0
 		return &simple{
-			// values are a running counter: the key uses the relative pattern and the ring position
-			key:     func() string { return fmt.Sprint(len(model), next%(capacity*2+1), next >= 3*capacity+2) },
-			enabled: func(i int) bool { return next < 3*capacity+3 },
+			key:     func() string { return "" },
+			enabled: func(i int) bool { return true },
 			apply: func(i int, check bool) string {
 				cls := "Queue." + names[i]
 				switch i {
@@ -1332,6 +1333,83 @@ func allSystems(c *cli.Ctx) []sysDef {
 	return out
 }
 
+// concurrent use of the PriorityQueue removal handles (the containers are documented as thread-safe): every element
+// leaves the queue exactly once, whichever of Pop and its handle gets there first.
+func pqScenarios() []*sched.Scenario {
+	type world struct {
+		q       *priorityqueue.PriorityQueue[int, prio]
+		handles []func()
+		popped  []int
+	}
+	mk := func(n int) *world {
+		w := &world{q: priorityqueue.New[int, prio]()}
+		for i := 1; i <= n; i++ {
+			w.handles = append(w.handles, w.q.Push(i, prio(i)))
+		}
+		return w
+	}
+	pop := func(w *world) {
+		if e, ok := w.q.Pop(); ok {
+			w.popped = append(w.popped, e)
+		}
+	}
+	finish := func(w *world, n int, removed map[int]bool) {
+		for {
+			e, ok := w.q.Pop()
+			if !ok {
+				break
+			}
+			w.popped = append(w.popped, e)
+		}
+		seen := map[int]int{}
+		for _, e := range w.popped {
+			seen[e]++
+		}
+		for i := 1; i <= n; i++ {
+			switch {
+			case seen[i] > 1:
+				vrt.Fail("element-popped-twice", "element %d was popped %d times (popped %v)", i, seen[i], w.popped)
+			case seen[i] == 0 && !removed[i]:
+				vrt.Fail("element-lost", "element %d was neither popped nor removed through its own handle (popped %v, handles called for %v)", i, w.popped, removed)
+			}
+		}
+	}
+	return []*sched.Scenario{
+		{Name: "priorityqueue/handle-vs-2pops", Run: func() {
+			w := mk(3)
+			vrt.Par(func() { w.handles[1]() }, func() { pop(w); pop(w) })
+			finish(w, 3, map[int]bool{2: true})
+		}},
+		{Name: "priorityqueue/same-handle-twice-vs-pop", Run: func() {
+			w := mk(3)
+			vrt.Par(func() { w.handles[0]() }, func() { w.handles[0]() }, func() { pop(w) })
+			finish(w, 3, map[int]bool{1: true})
+		}},
+		{Name: "priorityqueue/handle-vs-push-vs-pop", Run: func() {
+			w := mk(2)
+			vrt.Par(func() { w.handles[1]() }, func() { w.handles = append(w.handles, w.q.Push(0, prio(0))) }, func() { pop(w) })
+			seenZero := false
+			for {
+				e, ok := w.q.Pop()
+				if !ok {
+					break
+				}
+				w.popped = append(w.popped, e)
+			}
+			cnt := map[int]int{}
+			for _, e := range w.popped {
+				cnt[e]++
+				if e == 0 {
+					seenZero = true
+				}
+			}
+			if !seenZero || cnt[1] != 1 || cnt[0] != 1 || cnt[2] > 1 {
+				vrt.Fail("element-lost", "pushed 1,2 then concurrently removed 2 / pushed 0 / popped once; popped in total %v", w.popped)
+			}
+		}},
+	}
+}
+
 func main() {
 	var parts []*cli.Part
 	for i, d := range allSystems(&cli.Ctx{}) {
@@ -1339,9 +1417,9 @@ func main() {
 		parts = append(parts, hist.Part(d.name, func(c *cli.Ctx) []*hist.System { return []*hist.System{allSystems(c)[i].system()} }))
 	}
 	cli.Main(&cli.Property{
-		ID: "C12", Level: "model_checking", Parts: parts, QuickSecs: 50, ThoroughSecs: 600,
+		ID: "C12", Level: "model_checking", Parts: parts, Scenarios: pqScenarios(), QuickBound: 2, ThoroughBound: 3, QuickUnbounded: true, ThoroughUnbounded: true, Cache: true, QuickSecs: 50, ThoroughSecs: 600,
 		Rule:        "one explicit-state search per container and option setting over all operation histories on a small universe against its abstract model (Go map, sorted multiset, bounded FIFO, last-N list, LIFO, queue of first-time pushes, windowed sum on a virtual clock, map of maps, map + expected callback log, per-client multisets); merged systems run to the fixpoint of the reachable model state space, unmerged ones to a depth bound; every return value, every read-only probe and every emitted callback/event is compared after every step; distinct = distinct states",
 		Assumptions: []string{"random picks are checked for membership/distinctness only (8 repetitions per state)", "TimeHeap: entries older than a previously queried window are forgotten (AveragePerSecond prunes them)", "event order between independent topics of one clean-up is unspecified (compared as multisets)"},
-		NotReached:  []string{"universes larger than 3-4 keys", "concurrent use of these containers"},
+		NotReached:  []string{"universes larger than 3-4 keys", "concurrent use of these containers other than the PriorityQueue removal handles (3 scenarios, all interleavings)"},
 	})
 }
